@@ -558,7 +558,7 @@ func (e *ssaEval) instr(fr *frame, ins ssa.Instruction) {
 	case *ssa.FieldAddr:
 		a := e.val(fr, x.X)
 		fld := x.X.Type().Underlying().(*types.Pointer).Elem().Underlying().(*types.Struct).Field(x.Field)
-		if e.flatEmbedded && fld.Embedded() && (a.k == svAddr || a.k == svSym) {
+		if e.flatEmbedded && (fld.Embedded() || partFieldX4(x.X.Type().Underlying().(*types.Pointer).Elem(), fld)) && (a.k == svAddr || a.k == svSym) {
 			if _, isStruct := fld.Type().Underlying().(*types.Struct); isStruct {
 				set(x, sv{k: svAddr, s: a.s})
 				return
